@@ -1402,7 +1402,7 @@ fn generate_inner(tier: &str, rng: &mut Rng) -> Vec<Case> {
     let thorough = tier == "thorough";
     let mut cases = vec![];
     // 1. forced schedules
-    for i in 0..if thorough { 5_000 } else { 300 } {
+    for i in 0..if thorough { 4_000 } else { 300 } {
         cases.push(gen_det_long(rng, format!("det/long/{i}")));
     }
     for i in 0..if thorough { 80 } else { 6 } {
